@@ -80,7 +80,18 @@ def source_field_rules(fb, ctx):
         entry = sorted(set(c.split("::")[-1] for c in hirq.calls(h["body"], r"parser::parse_(block_)?source$")))
         if not entry:
             continue
-        flds = {n["name"] for n in find_all(h["body"], lambda z: z.get("k") == "field" and "SourceResult" in (z.get("ety") or ""))}
+        allf = [n for n in find_all(h["body"], lambda z: z.get("k") == "field" and "SourceResult" in (z.get("ety") or ""))]
+        if b["crate"] == "biscuit_quote":
+            # macro side: a field counts only when it flows into the macro's Builder - inside the arguments of one of its methods
+            # or on the right of an assignment to one of its fields (`let _ = r.scopes;`, `r.scopes.len()` load nothing)
+            sinks = []
+            for m_ in find_all(h["body"], lambda z: z.get("k") == "mcall" and re.match(r"biscuit_quote::Builder::\w+$", (z.get("def") or {}).get("path", ""))):
+                sinks += list(m_.get("args") or [])
+            for a_ in find_all(h["body"], lambda z: z.get("k") == "assign" and strip(z["lhs"]).get("k") == "field" and re.search(r"(^|::|&mut |&)Builder$", strip(z["lhs"]).get("ety") or "")):
+                sinks.append(a_["rhs"])
+            flds = {n["name"] for n in allf if any(find_all(s_, lambda z: z is n) for s_ in sinks)}
+        else:
+            flds = {n["name"] for n in allf}
         for e in entry:
             per.setdefault(e, {"biscuit_auth": [], "biscuit_quote": []})[b["crate"]].append((b, flds))
     n = 0
